@@ -313,6 +313,20 @@ def run(ctx):
                 if not np.array_equal(fr, f[::-1]):
                     ctx.violation(f"wrapper-order:model:{g}", "model(params, reversed abscissa) is not the "
                                   "reversed model output", {"input": meta})
+            # ... stated on the user's function itself: it is called on the abscissa running from its first-recorded
+            # end downwards (first >= last), and its output comes back in the caller's order - for non-monotonic
+            # abscissae too, where first / last and minimum / maximum positions disagree
+            if len(d):
+                v_ = p.valuesdict()
+                seen_ = d[::-1].copy() if d[0] < d[-1] else d.copy()
+                ef = np.asarray(mods[g].model_func(seen_, **v_), dtype=float)
+                ef = ef[::-1] if d[0] < d[-1] else ef
+                if not isinstance(f, str) and not np.array_equal(np.asarray(f, dtype=float), ef):
+                    ctx.violation(f"wrapper-not-approach-ordered:{g}:{kind}", "model(params, abscissa) is not the user's "
+                                  "function evaluated on the approach-ordered abscissa (first >= last) and returned in "
+                                  "the caller's order", {"input": {**meta, "delta": [float(v) for v in d]},
+                                                         "observed": [float(v) for v in np.asarray(f)[:12]],
+                                                         "expected": [float(v) for v in ef[:12]]})
             # default residuals = (force - model) * weights
             if len(d):
                 force = np.array([rng.randint(-8, 8) / 4 for _ in d], dtype=float)
